@@ -11,7 +11,7 @@ use crate::refm::resolver::*;
 use scpi::Context;
 
 pub fn run(cfg: &Cfg, rep: &mut Report) {
-    let ntrees = cfg.n(3, 30_000, 600_000);
+    let ntrees = cfg.n(48, 30_000, 600_000);
     let nmsg = cfg.n(3, 12, 25) as usize;
     run_cases(cfg, "capacity", ntrees, rep, |rng, ctx| {
         let (specs, nh) = TreeGen::generate(rng, true);
